@@ -614,3 +614,31 @@ send [USD/2 1] (
 )`, asset: cA, jsonVars: func() map[string]string { return map[string]string{"n": texts[nondetChoice("literal", len(texts))]} },
 		total: func(func(string, string) *big.Int, map[string]machine.Value) *big.Int { return big.NewInt(1) }})
 }
+
+// variables read from account metadata (the second door of NewValueFromString): the source account, the amount and a
+// fee portion come from the metadata of @cfg; the account is one of several names (a plain one, world, each destination, the metadata holder, an invalid one), the amount any integer
+func Harness_VM_38_vars_from_metadata() {
+	srcs := []string{"a", "world", "b", "fees", "cfg", "not an account"}
+	src := srcs[nondetChoice("meta.src", len(srcs))]
+	amount := nondetBig("meta.amount")
+	if !wild {
+		verifAssume(amount.Sign() >= 0)
+	}
+	fees := []string{"1/4", "0", "1", "12.5%", "3/2", "x"}
+	fee := fees[nondetChoice("meta.fee", len(fees))]
+	checkCase(vmCase{script: `vars {
+  account $src = meta(@cfg, "src")
+  monetary $m = meta(@cfg, "amount")
+  portion $p = meta(@cfg, "fee")
+}
+send $m (
+  source = $src
+  destination = {
+    $p to @fees
+    remaining to @b
+  }
+)
+set_account_meta($src, "last", $m)`, asset: cA,
+		meta: map[string]map[string]string{"cfg": {"src": src, "amount": cA + " " + amount.String(), "fee": fee}},
+		total: func(func(string, string) *big.Int, map[string]machine.Value) *big.Int { return amount }})
+}
